@@ -298,9 +298,9 @@ def shard_pathnames(shard):
 
 
 # ---- (e) "under any schema and flags": every flag subset on every option kind, meaningful or not
-ODD_FLAGS = 'LMTUNDXKC'
+ODD_FLAGS = 'LMTUNDXKCS'      # S: a 'simple' option (CFG_SIMPLE_*: the value lives in a variable of the caller, of exactly the C type's size) - value kinds only
 ODD_KINDS = ('int', 'float', 'bool', 'str', 'sec', 'func', 'ptr')
-ODD_TEXTS = [b'', b'o = 1', b'o = a', b'o = {1, 2}', b'o = {a}', b'o += 1', b'o += {1}', b'o = {}', b'o += {}', b'o = 1 o = 2', b'o = {1} o += {2}',
+ODD_TEXTS = [b'', b'o = 1', b'o = a', b'o = on', b'o = 2.5', b'o = true o = off o = 3', b'o = {1, 2}', b'o = {a}', b'o += 1', b'o += {1}', b'o = {}', b'o += {}', b'o = 1 o = 2', b'o = {1} o += {2}',
              b'o { }', b'o { x = 1 }', b'o { x = 1 } o { x = 2 }', b'o t { }', b'o t { x = 1 }', b'o t { x = 1 } o t { x = 2 }', b'o t { } o u { }',
              b'o t { } o T { }', b'o { k = v }', b'o t { k = v k2 = w }', b'o { o { } }', b'o t u { }', b'o = { }  o { }', b'o(1)', b'o()', b'o(a, b)',
              b'o', b'o =', b'o {', b'o t {', b'o (', b'o +=', b'O = 1', b'O { x = 1 }', b'o|x = 1', b'o=t|x = 1', b'o=0|x = 1', b'o { } o=0|x = 2',
@@ -575,8 +575,8 @@ def main():
     engine.phase(ck, 'shape families n <= 10^4; one token of every length 1..80 and around every power of two in every role', shard_shapes,
                  [(sh[i::K], 'asan', dl) for i in range(K)], shapes=len(sh))
     engine.phase(ck, 'sources and odd targets', shard_sources, [dl])
-    odd = [(k, m) for k in ODD_KINDS for m in range(1 << len(ODD_FLAGS))]
-    engine.phase(ck, 'every subset of 9 option flags on every option kind (meaningful or not) x 4 context flag sets x %d texts' % len(ODD_TEXTS), shard_odd,
+    odd = [(k, m) for k in ODD_KINDS for m in range(1 << len(ODD_FLAGS)) if not (m >> 9 & 1) or k in ('int', 'float', 'bool', 'str')]
+    engine.phase(ck, 'every subset of 10 option flags on every option kind (meaningful or not) x 4 context flag sets x %d texts' % len(ODD_TEXTS), shard_odd,
                  [(list(c), dl) for c in engine.chunks(odd, 28)], schemas=len(odd))
     # "any flags": every set of up to three of the fourteen flag bits handed to cfg_init, including the ones meant for options
     ctxsets = [f for f in range(1 << 14) if bin(f).count('1') <= (3 if quick else 5)]
